@@ -18,6 +18,8 @@ func runStream(name string, args []string) {
 		streamGhost(o)
 	case "ht":
 		streamHt(o)
+	case "cache":
+		streamCache(o, o.focus)
 	default:
 		fmt.Fprintf(os.Stderr, "unknown stream %q\n", name)
 		os.Exit(2)
